@@ -58,6 +58,63 @@ type gramInterp struct {
 	// cached: methods that memoise a graphics-state parameter in a receiver field (compare, emit, store)
 	cached     map[*types.Func][]string
 	cachedSeen map[string]bool
+	// the bool field that mirrors the text-object state (set true where BT is written, false where ET is)
+	textFlag     *types.Var
+	textFlagDone bool
+}
+
+// textFlagField finds the struct field assigned `true` in the function that writes " BT" and `false` in the
+// one that writes " ET": a test of it is decided by the interpreter's own BT/ET state.
+func (g *gramInterp) textFlagField() *types.Var {
+	if g.textFlagDone {
+		return g.textFlag
+	}
+	g.textFlagDone = true
+	info := g.p.TypesInfo
+	setIn := func(op string, val string) map[*types.Var]bool {
+		out := map[*types.Var]bool{}
+		for _, fd := range core.AllFuncDecls(g.p) {
+			if fd.Body == nil {
+				continue
+			}
+			writes := false
+			ast.Inspect(fd.Body, func(n ast.Node) bool {
+				if lit, ok := n.(*ast.BasicLit); ok && lit.Kind == token.STRING && strings.TrimSpace(strings.Trim(lit.Value, "\"`")) == op {
+					writes = true
+				}
+				return true
+			})
+			if !writes {
+				continue
+			}
+			ast.Inspect(fd.Body, func(n ast.Node) bool {
+				as, ok := n.(*ast.AssignStmt)
+				if !ok || len(as.Lhs) != 1 || len(as.Rhs) != 1 {
+					return true
+				}
+				id, ok := core.Unparen(as.Rhs[0]).(*ast.Ident)
+				if !ok || id.Name != val {
+					return true
+				}
+				if se, ok := core.Unparen(as.Lhs[0]).(*ast.SelectorExpr); ok {
+					if sel := info.Selections[se]; sel != nil && sel.Kind() == types.FieldVal {
+						if fv, ok := sel.Obj().(*types.Var); ok {
+							out[fv] = true
+						}
+					}
+				}
+				return true
+			})
+		}
+		return out
+	}
+	on, off := setIn("BT", "true"), setIn("ET", "false")
+	for fv := range on {
+		if off[fv] {
+			g.textFlag = fv
+		}
+	}
+	return g.textFlag
 }
 
 func gramDead() gramState { return nil }
@@ -382,6 +439,41 @@ func (g *gramInterp) bodyGroup(b *ast.BlockStmt, in gramState, name string) gram
 			return s, false
 		},
 		Split: func(cond ast.Expr, s gramState) (gramState, gramState, bool) {
+			// a test of the field that mirrors the text-object state is decided by that state
+			if g.spec.hasText && s != nil {
+				e, neg := core.Unparen(cond), false
+				if u, ok := e.(*ast.UnaryExpr); ok && u.Op == token.NOT {
+					e, neg = core.Unparen(u.X), true
+				}
+				if se, ok := e.(*ast.SelectorExpr); ok {
+					if sel := g.p.TypesInfo.Selections[se]; sel != nil && sel.Kind() == types.FieldVal && sel.Obj() == types.Object(g.textFlagField()) && g.textFlagField() != nil {
+						var t, f gramState
+						for cfg := range s {
+							// a token is only accounted for when the next one starts: a pending BT/ET has
+							// already changed the flag
+							eff := cfg.inText
+							switch strings.TrimSpace(cfg.pend) {
+							case "BT":
+								eff = true
+							case "ET":
+								eff = false
+							}
+							if eff != neg {
+								if t == nil {
+									t = gramState{}
+								}
+								t[cfg] = true
+							} else {
+								if f == nil {
+									f = gramState{}
+								}
+								f[cfg] = true
+							}
+						}
+						return t, f, true
+					}
+				}
+			}
 			key := types.ExprString(cond)
 			if condCount[key] < 2 || s == nil {
 				return nil, nil, false
